@@ -80,7 +80,7 @@ PROP = dict(
     cases=dict(quick=1600, thorough=10000),
     release_too=True,
     level="proof",
-    rule="three streams: (1) bsearch -- random UNSORTED/sorted/constant u64 arrays (len 0..40) and keys, slice::binary_search and "
+    rule="three streams: (1) bsearch -- random UNSORTED/sorted/constant u64 arrays (len 0..300) and keys, slice::binary_search and "
          "binary_search_by(never-Equal comparator) against Lib/Sorting.v; (2) HilbertCurve on 2-D/3-D point sets (uniform, clustered, "
          "collinear, coincident, lattice, duplicates, one outlier) x weights (ones, integer, dyadic fractional, zeros, one dominant, "
          "arbitrary fractional) x part_count 1..n+2 x orders 0..MAX+1 x pools 1,2,4,8,16; (3) ZCurve on the same point families x "
@@ -100,8 +100,9 @@ PROP = dict(
     assumptions=[
         "HilbertCurve: points, weights and part ids have the same length; part_count >= 1; weights finite and non-negative",
         "ZCurve: points and part ids have the same length; part_count >= 1; order <= max_order (64 in 2-D, 42 in 3-D)",
-        "termination of weighted_quantiles is NOT proved (open obligation of DESIGN §7 C01): the model runs it on fuel and the "
-        "correspondence watches for hangs; every C09 theorem about HilbertCurve is stated for runs that return",
+        "termination of weighted_quantiles is proved for part_count <= 2 only (C09_quantiles_terminate_partial); for part_count >= 3 it "
+        "is NOT proved (open obligation of DESIGN §7 C01): the model runs it on fuel, the correspondence watches for hangs, and "
+        "every C09 theorem about HilbertCurve is stated for runs that return",
     ],
 )
 
@@ -113,7 +114,7 @@ MANIFEST = dict(
          "consecutive chunks of it whose sizes differ by at most one and sum to n. Certified checkers judge every implementation output.",
     design_ref="DESIGN.md §7 C09",
     note="Trusted: Coq kernel; model<->code tie = translator (tolerance, order limits, dedup absence, chunk guard) + differential runs with "
-         "hook-recorded indices/codes/permutation; termination of weighted_quantiles unproved (fuel + watchdog). No axioms.",
+         "hook-recorded indices/codes/permutation; termination of weighted_quantiles proved for <= 2 parts only, otherwise unproved (fuel + watchdog). No axioms.",
     technique="Coq proof (invariant of the library binary-search loop; induction on the quadrant recursion) + translator + "
               "model/implementation correspondence + certified checkers",
 )
